@@ -388,6 +388,9 @@ def oracle_node(ops, impl):
             st['stale'] = True                             # sorted_* are stale until the next rebuild
         if op == 'rebuild':
             st['stale'] = False
+        if st['stale'] and op in ('add', 'add_many', 'remove', 'remove_wog'):
+            st['undef'] = True                             # these use the stale sorted arrays: map model void
+            continue
         if st['desync']:
             continue
         unknown = any(s is None for s in g2s.values())
